@@ -18,7 +18,7 @@ CONSTANTS
     KsSplit,        \* keys 1..KsSplit live in one keyspace, the larger ones in a second keyspace
                     \* (under the same user keys); KsSplit >= every key: a single keyspace
     MaxOpsPerTx,
-    Methods,        \* subset of {"get", "size_of", "scan", "range_lo", "insert", "remove", "rmw", "helper"}
+    Methods,        \* subset of {"get", "size_of", "scan", "range_lo", "range_hi", "range_pt", "insert", "remove", "rmw", "helper"}
     SingleWriter,   \* TRUE: SingleWriterTxDatabase (write_tx holds a process-wide mutex)
     EnGC,           \* tracker gc + pruning of the committed table
     FixSizeOf,      \* model of repair: size_of records its read
@@ -59,18 +59,24 @@ TxVal(r, k) == IF r.w[k].set THEN r.w[k].v ELSE ValAt(k, r.inst)
 EvalRead(m, arg, val) ==
     IF m \in {"get", "size_of", "rmw"} THEN val[arg]
     ELSE IF m = "scan" THEN (* the keyspace of arg *) {<<k, val[k]>> : k \in {x \in Keys : KsOf(x) = KsOf(arg) /\ val[x] # 0}}
-    ELSE (* range_lo: keys <= arg of arg's keyspace *)
+    ELSE IF m = "range_lo" THEN (* range(..=arg): keys <= arg of arg's keyspace *)
          {<<k, val[k]>> : k \in {x \in Keys : KsOf(x) = KsOf(arg) /\ x <= arg /\ val[x] # 0}}
+    ELSE IF m = "range_hi" THEN (* range(arg..): keys >= arg of arg's keyspace *)
+         {<<k, val[k]>> : k \in {x \in Keys : KsOf(x) = KsOf(arg) /\ x >= arg /\ val[x] # 0}}
+    ELSE (* range_pt: range(arg..=arg), the single-point range *)
+         {<<k, val[k]>> : k \in {x \in Keys : x = arg /\ val[x] # 0}}
 
 \* the read footprint the CODE records for each method
 Footprint(m, arg) ==
     IF m \in {"get", "rmw"} THEN {<<"single", arg>>}
     ELSE IF m = "size_of" THEN (IF FixSizeOf THEN {<<"single", arg>>} ELSE {})
     ELSE IF m = "scan" THEN {<<"all", KsOf(arg)>>}
-    ELSE {<<"range_lo", arg>>}
+    ELSE {<<m, arg>>}      \* range_lo / range_hi / range_pt: the range that was asked for
 Covers(fp, k) == \/ fp[1] = "all" /\ KsOf(k) = fp[2]
                  \/ fp[1] = "single" /\ fp[2] = k
                  \/ fp[1] = "range_lo" /\ KsOf(k) = KsOf(fp[2]) /\ k <= fp[2]
+                 \/ fp[1] = "range_hi" /\ KsOf(k) = KsOf(fp[2]) /\ k >= fp[2]
+                 \/ fp[1] = "range_pt" /\ k = fp[2]
 
 \* tracker
 Cnt(i) == LET r == {p \in trk.cnt : p[1] = i} IN IF r = {} THEN 0 ELSE (CHOOSE p \in r : TRUE)[2]
@@ -106,7 +112,7 @@ Begin(t) ==
 \* a read method: result observed, footprint recorded
 Read(t, m, arg) ==
     /\ tx[t].st = "open" /\ tx[t].nops < MaxOpsPerTx
-    /\ m \in Methods \cap {"get", "size_of", "scan", "range_lo"}
+    /\ m \in Methods \cap {"get", "size_of", "scan", "range_lo", "range_hi", "range_pt"}
     /\ LET r == tx[t]
            val == [k \in Keys |-> TxVal(r, k)]
            res == EvalRead(m, arg, val)
